@@ -162,8 +162,10 @@ func runC02(c *Ctx) []Obligation {
 			Target: CallTo(`^invoke store/types\.KVStore\.`).Except(`^invoke store/types\.KVStore\.` + op + `\(s\.parent, \(store/prefix\.Store\)\.key\(s, key\)` + extra + `\)$`),
 			TargetMustExist: false, Why: "the only parent operation of " + op + " is " + op + " under prefix+key"}
 	}
+	// the computed end: the merged variable, or (when the computation was moved into a function) either of its two values
+	const newend = `(phi:newend|store/prefix\.cpIncr\(s\.prefix\)|store/prefix\.cloneAppend\(s\.prefix, end\))`
 	iterRow := func(op string) []Row {
-		call := `^invoke store/types\.KVStore\.` + op + `\(s\.parent, store/prefix\.cloneAppend\(s\.prefix, start\), phi:newend\)$`
+		call := `^invoke store/types\.KVStore\.` + op + `\(s\.parent, store/prefix\.cloneAppend\(s\.prefix, start\), ` + newend + `\)$`
 		return []Row{
 			{Prop: P, ID: "parent." + op + ".bounds-under-prefix", Fn: S + op,
 				Target: CallTo(`^invoke store/types\.KVStore\.`).Except(call), Why: "the parent is iterated from prefix+start to the computed end under the prefix, in the same direction"},
@@ -176,7 +178,7 @@ func runC02(c *Ctx) []Obligation {
 			{Prop: P, ID: "parent." + op + ".closed-end-not-widened", Fn: S + op, Assume: []Lit{T(`^nonnil\(end\)$`)},
 				Target: CallTo(`^store/prefix\.cpIncr\(`), Why: "a given end is not replaced by the end of the whole prefix range"},
 			{Prop: P, ID: "parent." + op + ".wrapped", Fn: S + op,
-				Target: RetNotMatch(0, `^store/prefix\.newPrefixIterator\(s\.prefix, start, end, invoke store/types\.KVStore\.`+op+`\(s\.parent, store/prefix\.cloneAppend\(.*\.prefix, start\), phi:newend\)#0\)$`), Why: "results are served through the prefix iterator with this store's prefix"},
+				Target: RetNotMatch(0, `^store/prefix\.newPrefixIterator\(s\.prefix, start, end, invoke store/types\.KVStore\.`+op+`\(s\.parent, store/prefix\.cloneAppend\(.*\.prefix, start\), `+newend+`\)#0\)$`), Why: "results are served through the prefix iterator with this store's prefix"},
 		}
 	}
 	rows := []Row{
